@@ -1093,7 +1093,10 @@ def evalStatement (fuel : Nat) (ctx : Ctx) : PM Stmt :=
         evalSliceAssignment fuel ctx
       else do
         let e ← evalExpression fuel ctx
-        pure (.expr e)
+        -- only calls can be used as statements
+        match e with
+        | .call _ _ _ | .app _ _ _ | .copy _ _ | .input _ | .read _ => pure (.expr e)
+        | _ => err
 
 end
 
